@@ -62,7 +62,7 @@ def run(name, pids):
         assert sh("cp -r %s %s" % (VERIF, vc)).returncode == 0
         for pid in pids:
             t0 = time.time()
-            r = sh("cd %s && VERIF_REPO=%s ./check %s --tier quick" % (vc, wt, pid), timeout=3600)
+            r = sh("cd %s && VERIF_REPO=%s ./check %s --tier quick" % (vc, wt, pid), timeout=1500)
             lines = [l for l in r.stdout.split("\n") if l.startswith("VIOLATION") or l.startswith("  ")]
             out[pid] = {"exit": r.returncode, "first": [l.replace(vc, "/verif") for l in lines[:2]], "wall": round(time.time() - t0)}
             print(name, pid, "exit", r.returncode, (lines[:2] or [r.stdout[-200:]]), flush=True)
